@@ -128,7 +128,8 @@ def gen_case(run_seed: int, tier: str, index: int = 0) -> dict:
         graphs = [list(range(n))] + [[] for _ in range(nsub)]  # declaration order matters for the shard layout
         shard = tied["shard"]
     options = {
-        "size_threshold_bytes": r.choice([0, 0, 0, 1, 16]) if tied is None else 0,
+        # (-1: zero-size tensors are written as external data too)
+        "size_threshold_bytes": (-1 if st.rng("negative-threshold").random() < 0.2 else r.choice([0, 0, 0, 1, 16])) if tied is None else 0,
         "max_shard_size_bytes": shard,
         "max_workers": r.choice([2, 2, 3, 3, 4, 8]) if tied is None else tied["workers"],
         "max_in_flight_bytes": budget,
